@@ -77,6 +77,8 @@ func runHistory(sp spec, tmp string) (res *result, err error) {
 		h.witnessUnsignedKey()
 	case "w-member-epoch":
 		h.witnessMemberEpoch()
+	case "d-exec-setup":
+		h.directedExecSetup()
 	case "gen":
 		for k := 0; k < 2+h.rng.Intn(2) && !h.cut; k++ {
 			h.attempt()
@@ -207,6 +209,22 @@ func (h *hist) witnessMemberEpoch() {
 	h.packet(2, mk(11, nil), "proposal epoch 11 (Left accepts epoch jumps)", "leader")
 	h.packet(2, h.forged(2, "abort", leader, leader), "abort by the leader", "leader")
 	h.packet(2, mk(2, nil), "proposal epoch 2", "leader")
+}
+
+// coverage of the save-then-fail Execute path: a joiner accepts a proposal whose remaining list holds
+// a participant with an unparsable key (remaining keys are not checked), joins, and the Execute
+// packet is stored (Executing) before setupDKG fails on that key.
+func (h *hist) directedExecSetup() {
+	h.fabricate([]int{0, 1, 2}, 2, 1)
+	leader := h.w.ids[0]
+	bad := &pdkg.Participant{Address: "127.0.0.1:9999", Key: []byte("not-a-point"), Signature: []byte("x")}
+	t := &pdkg.ProposalTerms{BeaconID: beaconID, Threshold: 3, Epoch: 2, Timeout: h.farTimeout(),
+		Leader: proto.Clone(leader.part).(*pdkg.Participant), SchemeID: h.w.sch.Name, BeaconPeriodSeconds: 30, CatchupPeriodSeconds: 5,
+		GenesisTime: timestamppb.New(h.gen), GenesisSeed: h.seed, Remaining: append(h.parts([]int{0, 1, 2}), bad), Joining: h.parts([]int{3})}
+	h.packet(3, h.proposalPacket(t, leader, leader.part.Address), "proposal with an unparsable remaining key", "leader")
+	h.command(3, h.joinCmd("group"), "cmd-join:group", "joiner", false)
+	h.packet(3, h.forged(3, "execute", leader, leader), "execute: stored, then kyber set-up fails", "leader")
+	h.finishFail(3)
 }
 
 // a proposal without a leader: terms.Leader.Address is a nil dereference in DBState.Proposed.
@@ -352,7 +370,7 @@ func Run(name, prop string) func(outDir string, seed int64, tier string) error {
 				specs = append(specs, spec{id: len(specs), kind: kind, seed: rng.Int63()})
 			}
 		}
-		for _, wk := range []string{"w-fresh-epoch", "w-left-panic", "w-key-subst", "w-nonleader-exec", "w-nil-leader", "w-unsigned-key", "w-member-epoch"} {
+		for _, wk := range []string{"w-fresh-epoch", "w-left-panic", "w-key-subst", "w-nonleader-exec", "w-nil-leader", "w-unsigned-key", "w-member-epoch", "d-exec-setup"} {
 			add(wk, 1)
 		}
 		nGen, nFab, nKy, nSleep := 24, 44, 5, 4
@@ -474,8 +492,13 @@ func Run(name, prop string) func(outDir string, seed int64, tier string) error {
 			if len(rep.Samples) < 8 && len(r.cases) > 0 {
 				rep.Sample(fmt.Sprintf("history %d (%s) %s: %s", r.spec.id, r.spec.kind, r.cases[0].id.name, traceStr(r.cases[0])), 8)
 			}
-			r.w.close()
 		}
+		var cw sync.WaitGroup
+		for _, r := range results {
+			cw.Add(1)
+			go func(w *world) { defer cw.Done(); w.close() }(r.w)
+		}
+		cw.Wait()
 		sort.Strings(rep.CaseFiles)
 		return rep.Write(outDir)
 	}
